@@ -55,6 +55,8 @@ struct WorldH : World {
     // decoys: every file a wrongly parsed request or message id could hit
     for (uint64_t n : {1ULL, 2ULL, 12ULL, 34ULL, 77ULL, 123ULL, 1234ULL}) {
       k->put_file(t.qp("mess", n, true), "decoy message " + std::to_string(n) + "\n", 0644, uq, t.gid_qmail);
+      // the spawners take the message path verbatim from the daemon; generated commands name n%23/n whatever conf-split the build has
+      if (t.split != 23 && mode != "clean") { std::string dd = t.home + "/queue/mess/" + std::to_string(n % 23); k->mkdir_p(dd, 0700, uq, t.gid_qmail); k->put_file(dd + "/" + std::to_string(n), "decoy message " + std::to_string(n) + "\n", 0644, uq, t.gid_qmail); }
       k->put_file(t.qp("intd", n, false), "decoy", 0644, uq, t.gid_qmail);
       k->put_file(t.qp("todo", n, false), "decoy", 0644, uq, t.gid_qmail);
       k->put_file(t.qp("info", n, true), "Fdecoy", 0600, t.uids["qmails"], t.gid_qmail);
@@ -273,6 +275,8 @@ struct WorldH : World {
       std::string rep = reports.count(c.delnum) ? reports[c.delnum] : "";
       std::string ctx = "address " + printable(local) + "@" + domain + " (delivery " + std::to_string(c.delnum) + ")";
       res->nontrivial = true; k->probe("c11_lookups");
+      // a delivery number at or above the compiled-in conf-spawn is refused by spawn.c before any lookup
+      if (c.delnum >= (int)conf.geti("spawn", 120)) { if (rep.empty() || rep[0] != 'Z') { violate("C11.over-limit-not-deferred", ctx + ": report \"" + printable(rep, 60) + "\" for a delivery number beyond conf-spawn"); return; } k->probe("delnum_beyond_conf_spawn"); continue; }
       bool uncertain = cdb_damaged || lookup_fault || plan->knobs.has("getpw_stub");
       Agent *got = nullptr;   // agents are recorded when they run, which need not be the order of the commands
       for (auto &ag : agents) if (!ag.used && ag.argv.size() >= 5 && ag.argv[4] == local) { got = &ag; ag.used = true; break; }
@@ -313,6 +317,7 @@ struct WorldH : World {
       res->nontrivial = true; k->probe("c09_spawner_verdicts");
       if (rep.empty()) { violate("C09.rspawn-no-report", "no report for delivery " + std::to_string(c.delnum)); return; }
       char got = rep[0];
+      if (c.delnum >= (int)conf.geti("spawn", 120)) { if (got != 'Z') { violate("C09.rspawn-over-limit-not-deferred", "report \"" + printable(rep, 60) + "\" for a delivery number beyond conf-spawn"); return; } k->probe("delnum_beyond_conf_spawn"); continue; }
       // is success justified by qmail-remote(8)'s output grammar?
       bool k_ok = !crash && code == 0 && !o.empty() && o[0] != 's' && o[0] != 'h';
       if (k_ok) { char first = 0; size_t j = 0; for (size_t q = 0; q < o.size(); q++) if (!o[q]) { char s0 = o[j]; if (s0 == 'K' || s0 == 'Z' || s0 == 'D') { first = s0; break; } j = q + 1; } k_ok = first == 'K'; }
